@@ -25,9 +25,9 @@ Print Assumptions C09_gc_terminates_refuted.
 (* GC of the repaired code returns Ok (never the fuel/hang result) in every state, for every
    iteration order of every pass. *)
 Theorem C09_gc_terminates :
-  forall succ subject, acyclic succ -> subject_listed succ subject ->
+  forall succ subject manifest, acyclic succ -> subject_listed succ subject ->
   forall kl ords st, same_elements ords (candidates (idx st)) ->
-  snd (gc succ subject cfg_fixed kl ords st) = Ok.
+  snd (gc succ subject manifest cfg_fixed kl ords st) = Ok.
 Proof. exact gc_terminates_final. Qed.
 Print Assumptions C09_gc_terminates.
 
@@ -38,10 +38,10 @@ Print Assumptions C09_gc_terminates.
    exactly its live predecessors; stray files are removed iff they have a valid digest name in
    a known algorithm directory.  Independent of all iteration orders. *)
 Theorem C09_gc_exact :
-  forall succ subject, acyclic succ -> subject_listed succ subject ->
+  forall succ subject manifest, acyclic succ -> subject_listed succ subject ->
   forall kl ords st, same_elements ords (candidates (idx st)) ->
   exists st',
-    gc succ subject cfg_fixed kl ords st = (st', Ok) /\
+    gc succ subject manifest cfg_fixed kl ords st = (st', Ok) /\
     (forall x, In x (blobs st') <-> In x (blobs st) /\ Live succ subject st x) /\
     (forall x, In x (gnodes st') <-> Live succ subject st x) /\
     (forall t n, In (RTag t, n) (idx st') <-> In (RTag t, n) (idx st)) /\
@@ -54,8 +54,8 @@ Print Assumptions C09_gc_exact.
 (* Before the repair (F13) one referrer pass made the result depend on the map order. *)
 Theorem C09_gc_order_refuted :
   let st := run_w cfg_fixed [OPush 0; OPush 1; OPush 5; OPush 6; OPush 7; OTag 1 0] in
-  In 7 (blobs (fst (gc succ_w subject_w cfg_noF13 false (fun _ => [6; 7; 5]) st))) /\
-  ~ In 7 (blobs (fst (gc succ_w subject_w cfg_noF13 false (fun _ => [7; 6; 5]) st))) /\
+  In 7 (blobs (fst (gc succ_w subject_w manifest_w cfg_noF13 false (fun _ => [6; 7; 5]) st))) /\
+  ~ In 7 (blobs (fst (gc succ_w subject_w manifest_w cfg_noF13 false (fun _ => [7; 6; 5]) st))) /\
   (forall n, In n [6; 7; 5] <-> In n (candidates (idx st))).
 Proof. exact gc_noF13_order_dependent. Qed.
 Print Assumptions C09_gc_order_refuted.
@@ -155,6 +155,49 @@ Theorem C09_delete_order_refuted :
   snd (delete succ_w subject_w manifest_w cfg_noF4 ord_rev st 1) = Ok.
 Proof. exact delete_noF4_order_dependent. Qed.
 Print Assumptions C09_delete_order_refuted.
+
+(* [is_tagged] (Store.isTagged) means "carries a tag" in every state the repaired code can
+   reach: no stale tag-set entries exist *)
+Theorem C09_is_tagged_exact :
+  forall succ subject manifest kl ops,
+  let st := fold_left (fun st o => fst (step succ subject manifest cfg_fixed kl st o)) ops init in
+  forall n, is_tagged st n = true <-> exists t, In (RTag t, n) (idx st).
+Proof. exact no_stale_final. Qed.
+Print Assumptions C09_is_tagged_exact.
+
+(* Before the repair of resolver.Memory.Tag: after tag 0 moved from 5 to 1, deleting the index
+   6 that lists 5 leaves the untagged, no longer referenced 5 behind (repaired: removed) *)
+Theorem C09_delete_stale_tag_refuted :
+  let st := run_w cfg_noStale stale_ops in
+  let st' := fst (delete succ_w subject_w manifest_w cfg_noStale ord_id st 6) in
+  let fx := run_w cfg_fixed stale_ops in
+  let fx' := fst (delete succ_w subject_w manifest_w cfg_fixed ord_id fx 6) in
+  lookup (RTag 0) (idx st) = Some 1 /\ (forall t, ~ In (RTag t, 5) (idx st)) /\
+  In 5 (blobs st') /\ (forall p, In p (gnodes st') -> ~ In 5 (succ_w p)) /\
+  ~ In 5 (blobs fx') /\ blobs fx' = [1; 0].
+Proof. exact delete_stale_tag_leaves_garbage. Qed.
+Print Assumptions C09_delete_stale_tag_refuted.
+
+(* Before the repair of the dangling-leaf abort: push image 1 without its config 0, tag, GC;
+   Delete 1 returns not found (repaired: Ok) *)
+Theorem C09_delete_absent_leaf_refuted :
+  let st := run_w cfg_noLeaf leaf_ops in
+  In 1 (blobs st) /\ In 0 (gnodes st) /\ ~ In 0 (blobs st) /\
+  snd (delete succ_w subject_w manifest_w cfg_noLeaf ord_id st 1) = ENotFound /\
+  snd (delete succ_w subject_w manifest_w cfg_fixed ord_id (run_w cfg_fixed leaf_ops) 1) = Ok.
+Proof. exact delete_absent_leaf_aborts. Qed.
+Print Assumptions C09_delete_absent_leaf_refuted.
+
+(* Why the known finding has no small repair: the obvious candidate -- queue a referrer only
+   when every predecessor of it is already queued -- leaves the referrer chain 1 <- 2 <- 8
+   behind (2 is "held" by its own referrer 8), although nothing else links to 2 or 8 *)
+Theorem C09_delete_skip_linked_refuted :
+  let st := run_w cfg_fixed [OPush 0; OPush 1; OPush 2; OPush 8] in
+  blobs (fst (delete succ_w subject_w manifest_w cfg_skipLinked ord_id st 1)) = [8; 2; 0] /\
+  blobs (fst (delete succ_w subject_w manifest_w cfg_fixed ord_id st 1)) = [] /\
+  is_tagged st 2 = false /\ is_tagged st 8 = false.
+Proof. exact delete_skip_linked_leaves_chain. Qed.
+Print Assumptions C09_delete_skip_linked_refuted.
 
 (* ---- the hypotheses are satisfiable on non-trivial instances ---- *)
 Example C09_hyps_satisfiable : acyclic succ_w /\ subject_listed succ_w subject_w.
